@@ -17,14 +17,14 @@ import (
 
 type c09Work struct {
 	NetOpts
-	W     *World
-	C     *mqtt.Client
-	Done  bool
-	ready bool
+	W         *World
+	C         *mqtt.Client
+	Done      bool
+	ready     bool
 	exchanges []<-chan error
 }
 
-func (x *c09Work) Net() *NetOpts { return &x.NetOpts }
+func (x *c09Work) Net() *NetOpts  { return &x.NetOpts }
 func (x *c09Work) OnConn(c *Conn) {}
 
 var illFormed = []string{
@@ -130,6 +130,11 @@ func famC09(w *World, spec *RunSpec, res *RunResult) {
 		}
 	}
 	cfg.AtLeastOnceMax, cfg.ExactlyOnceMax = 1, 1
+	if clientID == "" {
+		// a zero-byte client identifier is only legal with a clean session
+		// [MQTT-3.1.3-7]; the broker refuses it otherwise
+		cfg.CleanSession = true
+	}
 
 	// invalid configurations are refused by the constructor
 	if t.Flip("badconfig", 150) {
